@@ -285,8 +285,9 @@ impl std::future::Future for TwoPhase {
 pub fn c07_join_handle_wakes() {
     // bit0: child ends Ready (else goes dead and is evicted); bit1: the joiner is polled a second
     // time (woken by another source) while the child is still running
+    // bit2: the child is aborted through its handle before it was ever adopted, then joined
     let c = nd::any_u8();
-    dispatch!(c, join_case, 0 1 2 3);
+    dispatch!(c, join_case, 0 1 2 3 4);
 }
 
 fn join_case<const C: u8>() {
@@ -303,11 +304,24 @@ fn join_case<const C: u8>() {
         let (pc, slot, done_flag, j_slot) = (pc.clone(), slot.clone(), done_flag.clone(), j_slot.clone());
         crux_core::Command::new(move |ctx| {
             let handle = ctx.spawn(move |ctx| Script::new([c0, c1, Step::pending()], &pc, &slot, ctx, 3));
+            if C & 4 != 0 {
+                handle.abort();
+            }
             Joiner { handle, flag: done_flag, extra: if C & 2 != 0 { Some(j_slot) } else { None } }
         })
     };
 
     hooks::run_until_settled(&mut cmd);
+    if C & 4 != 0 {
+        // spawn, abort, join in one poll: the joiner must be released although the child never ran
+        assert!(pc.polls() == 0, "a task aborted before adoption is never polled");
+        assert!(done_flag.polls() == 1, "joiner of a task aborted before adoption is resumed");
+        assert!(hooks::live_tasks(&cmd) == 0, "nothing lingers");
+        assert!(cmd.is_done(), "command done");
+        nd_cover!(true, "joined a task that was aborted before adoption");
+        forget((cmd, pc, slot, done_flag, j_slot));
+        return;
+    }
     assert!(pc.polls() == 1, "child polled once");
     assert!(hooks::live_tasks(&cmd) == 2, "parent waits on the join handle, child is parked");
     assert!(done_flag.polls() == 0, "joiner not resumed early");
@@ -335,6 +349,51 @@ fn join_case<const C: u8>() {
     nd_cover!(child_ends_ready, "child finished normally");
     nd_cover!(!child_ends_ready, "child evicted as unwakeable");
     forget((cmd, pc, slot, done_flag, j_slot));
+}
+
+/// Two parked tasks are both woken before the next settle (two wake-ups queued in the same round).
+/// Each then finishes, parks again, or goes dead (Pending without registering): a dead task must be
+/// discarded although another task's wake-up is still queued behind it, and a parked one kept.
+/// W = a + 3*b with a, b in {0 finishes, 1 goes dead, 2 parks again}.
+fn two_woken_case<const W: u8>() {
+    let (pa, pb) = (Arc::new(Probe::default()), Arc::new(Probe::default()));
+    let (sa, sb) = (Slot::new(), Slot::new());
+    let park = Step { keep_slot: true, ..Step::pending() };
+    let second = |k: u8| match k {
+        0 => Step { ready: true, ..Step::pending() },
+        1 => Step::pending(),
+        _ => Step { keep_slot: true, ..Step::pending() },
+    };
+    let (ka, kb) = (W % 3, W / 3);
+    let mut cmd: Cmd = command_with([park, second(ka), Step::pending()], &pa, &sa, 1);
+    {
+        let (pb, sb) = (pb.clone(), sb.clone());
+        let sb1 = second(kb);
+        cmd.spawn(move |ctx| Script::new([park, sb1, Step::pending()], &pb, &sb, ctx, 2));
+    }
+    hooks::run_until_settled(&mut cmd);
+    assert!(hooks::live_tasks(&cmd) == 2, "both parked");
+    sa.take().expect("A parked").wake();
+    sb.take().expect("B parked").wake();
+    assert!(hooks::ready_len(&cmd) == 2, "two wake-ups queued");
+    hooks::run_until_settled(&mut cmd);
+    assert!(pa.polls() == 2 && pb.polls() == 2, "both ran once more");
+    assert!(pa.dropped() == (ka != 2), "A discarded iff it finished or can never be woken again");
+    assert!(pb.dropped() == (kb != 2), "B discarded iff it finished or can never be woken again");
+    let live = usize::from(ka == 2) + usize::from(kb == 2);
+    assert!(hooks::live_tasks(&cmd) == live, "live tasks");
+    assert!(cmd.is_done() == (live == 0), "done <=> nothing wakeable left");
+    nd_cover!(ka == 1 && kb == 1, "both went dead in the same round");
+    nd_cover!(ka == 1 && kb == 0, "first dead, second finished");
+    nd_cover!(ka == 2 && kb == 1, "first parked again, second dead");
+    forget((cmd, pa, pb, sa, sb));
+}
+
+#[cfg_attr(kani, kani::proof, kani::unwind(5))]
+#[cfg_attr(kani, kani::stub(core::mem::MaybeUninit::write, crate::common::maybe_uninit_write))]
+pub fn c07_two_woken_tasks() {
+    let w = nd::any_u8();
+    dispatch!(w, two_woken_case, 4 1 7 3 5);
 }
 
 pub const _USES: usize = MAX_STEPS;
